@@ -156,13 +156,14 @@ func forEachMutant(k *kernel.K, cfg mutCfg, f func(m mutant)) {
 	if len(cfg.compacts) > 0 {
 		pos := cfg.compacts
 		if len(pos) > 12 {
-			// keep the first and 11 tape-chosen others (order preserved)
+			// keep the first and 11 tape-chosen others (order preserved). The number of
+			// draws is bounded: an exhausted replay tape answers 0 for ever.
 			keep := map[int]bool{0: true}
-			for len(keep) < 12 {
+			for tries := 0; tries < 48 && len(keep) < 12; tries++ {
 				keep[k.Choose(len(pos), "craftpos")] = true
-				if len(keep) >= len(pos) {
-					break
-				}
+			}
+			for i := 0; len(keep) < 12 && i < len(pos); i++ {
+				keep[i] = true
 			}
 			var sel []compactPos
 			for i := range pos {
